@@ -9,8 +9,9 @@ import BufrModel.Lang.MdQuery
 import BufrModel.Gen.Layouts
 import BufrModel.Lemmas.SectionsDec
 import BufrModel.Lemmas.MdQuery
+import BufrModel.Lemmas.SectionsInfo
 namespace Bufr
-open MdQuery
+open MdQuery SecInfo
 
 /-- `%name`: the value held by the first section, in message order, that has a parameter of that name
     (`none` when no section has one). -/
@@ -135,7 +136,8 @@ theorem C17_info_ignores_trailing {α : Type} (L : Layouts) (dc : DataCoder α) 
   obtain ⟨p, news, h1, _, h3, _, _, h6⟩ := decLoop_local L dc hdc _ _ _ _ _ _ _ _ h
   exact ⟨p, h1, by simpa using h3.symm, h6⟩
 
-/-- **The skipped extent is opaque**: closing a section by skipping to its declared end gives the same
+/-- **The skipped extent is opaque**, section level (the message-level theorem is
+    `C17_info_ignores_data_content` below): closing a section by skipping to its declared end gives the same
     section record whatever the skipped bits are (this is how the metadata-only decode passes over the
     data: same result for data bits `a` and `a'` of the same length). -/
 theorem C17_info_ignores_data_content_partial {α : Type} (s : SectionLayout) (st : DecSt α) (d : Nat)
@@ -158,15 +160,234 @@ theorem C17_info_ignores_data_content_partial {α : Type} (s : SectionLayout) (s
     simp only [R.pure]
     rfl
 
-/- FULL STATEMENTS not proved in this round (carried by the correspondence check, which compares the
-   metadata-only decode with the full decode on every generated message and on the sample files, also
-   with the data section overwritten by random bytes and the stop signature damaged):
+/-! ## metadata-only decoding against the full decode, at message level -/
 
-   C17_info_eq_full_prefix : decode L dc {} b = .ok m →
-       ∃ mi, decode L dc {infoOnly := true} b = .ok mi ∧ sections before the data section agree, and the
-       parameters of the cut data section agree with the corresponding ones of the full decode
-   C17_info_ignores_data_content : the message-level version of the `_partial` theorem above
-       (decode info (pre ++ a ++ t) and decode info (pre ++ a' ++ t') return the same sections). -/
+/-- the bundled family meets the well-formedness hypothesis of the theorems below (finite table) -/
+theorem C17_bundled_layouts_wf : Gen.layouts.WF = true := by decide
+
+/-- only a template-data parameter ever decodes to the marker `PVal.data`: the typed reads and the
+    descriptor list never return it (so `infoSections` cuts exactly at the decoded template data) -/
+theorem C17_only_template_data_is_data {α : Type} (dc : DataCoder α) (st : DecSt α) (p : Param)
+    (hty : p.ty ≠ .templateData) (x : Bits) (v : PVal) (d : Option α) (r : Bits)
+    (h : decValue dc st p x = .ok ((v, d), r)) : v ≠ PVal.data ∧ d = none :=
+  decValue_nodata hty h
+
+/-- **Metadata-only decoding equals the full decode up to and including the cut data section**, bit level:
+    whenever the full section loop succeeds, the metadata-only loop succeeds on the same bits and returns
+    `infoSections` of the full result: the same section records (index, parameters, extent) up to the data
+    section, the data section cut before the template data with its full declared extent, nothing after
+    it, and no data. -/
+theorem C17_info_eq_full_prefix_bits {α : Type} (L : Layouts) (hL : L.WF = true) (dc : DataCoder α)
+    (hdc : ∀ reg, Local (dc.dec reg)) (ie : Bool) (x : Bits) (out : DecOut α) (r : Bits)
+    (h : decodeBits L dc { infoOnly := false, ignoreExpect := ie } x = .ok (out, r)) :
+    ∃ outi ri, decodeBits L dc { infoOnly := true, ignoreExpect := ie } x = .ok (outi, ri) ∧
+      outi.sections = infoSections out.sections ∧ outi.data = none ∧
+      outi.nbits = ((infoSections out.sections).map (·.nbits)).sum ∧ outi.nbits ≤ out.nbits := by
+  unfold decodeBits at h
+  obtain ⟨news, outi, ri, h1, h2, h3, h4, h5⟩ :=
+    decLoop_info L hL dc hdc ie _ _ _ _ { sections := [], data := none, nbits := 0 } _ _ _ rfl h
+  obtain ⟨p, news', _, g2, g3, g4, _, _⟩ := decLoop_local L dc hdc _ _ _ _ _ _ _ _ h
+  simp only [List.nil_append, Nat.zero_add] at h1 h3 h4 g2 g3
+  have hn : news' = news := by rw [← g2, h1]
+  subst hn
+  refine ⟨outi, ri, h2, by rw [h3, h1], h5, by rw [h4, h1], ?_⟩
+  rw [h4, g3, g4]
+  exact infoSections_sum_le _
+
+/-- **... and at message level** (`decode`, bytes): if the full decode of `b` succeeds with message `m`, the
+    metadata-only decode of `b` succeeds with the sections `infoSections m.sections`, no data, the summed
+    extent of those sections, and the serialized bytes cut to that extent. -/
+theorem C17_info_eq_full_prefix {α : Type} (L : Layouts) (hL : L.WF = true) (dc : DataCoder α)
+    (hdc : ∀ reg, Local (dc.dec reg)) (ie : Bool) (b : List UInt8) (m : DecMsg α)
+    (h : decode L dc { infoOnly := false, ignoreExpect := ie } b = .ok m) :
+    ∃ mi, decode L dc { infoOnly := true, ignoreExpect := ie } b = .ok mi ∧
+      mi.sections = infoSections m.sections ∧ mi.data = none ∧
+      mi.nbits = ((infoSections m.sections).map (·.nbits)).sum ∧ mi.nbits ≤ m.nbits ∧
+      mi.serialized = m.serialized.take (mi.nbits / 8) := by
+  unfold decode at h
+  split at h
+  · cases h
+  rename_i s hs
+  split at h
+  · cases h
+  rename_i out r hbits
+  cases h
+  obtain ⟨outi, ri, h1, h2, h3, h4, h5⟩ := C17_info_eq_full_prefix_bits L hL dc hdc ie _ _ _ hbits
+  refine ⟨{ sections := outi.sections, data := outi.data, nbits := outi.nbits, serialized := s.take (outi.nbits / 8) },
+    ?_, h2, h3, h4, h5, ?_⟩
+  · simp only [decode, hs, h1]
+  · simp only [List.take_take]
+    congr 1
+    have : outi.nbits / 8 ≤ out.nbits / 8 := Nat.div_le_div_right h5
+    omega
+
+/-- **Metadata-only decoding never runs the data reader** (message level): same result for every data coder. -/
+theorem C17_info_never_runs_data_reader {α : Type} (L : Layouts) (dc dc' : DataCoder α) (ie : Bool) :
+    decodeBits L dc { infoOnly := true, ignoreExpect := ie } = decodeBits L dc' { infoOnly := true, ignoreExpect := ie } ∧
+    ∀ b, decode L dc { infoOnly := true, ignoreExpect := ie } b = decode L dc' { infoOnly := true, ignoreExpect := ie } b := by
+  have h : decodeBits L dc { infoOnly := true, ignoreExpect := ie } =
+      decodeBits L dc' { infoOnly := true, ignoreExpect := ie } := by
+    unfold decodeBits
+    exact decLoop_coder L dc dc' ie _ _ _ _
+  exact ⟨h, fun b => by simp only [decode, h]⟩
+
+/-- **The skipped data extent is opaque** (message level, bits).  A successful metadata-only decode ends with
+    a section decoded over the (cut) layout of an entry `e` of the family.  If that layout has template data,
+    the input splits as `pre ++ a ++ r` where `a` is the extent between the header of the data section (its
+    fixed-width parameters, `headerBits`) and its declared end, and replacing `a` by ANY bits of the same
+    length, followed by anything, gives the same result: the data content is never interpreted.  Otherwise
+    the layout is a final one without template data.  (No assumption on the data coder: it is never run.) -/
+theorem C17_info_ignores_data_content {α : Type} (L : Layouts) (hL : L.WF = true) (dc : DataCoder α) (ie : Bool)
+    (x : Bits) (out : DecOut α) (r : Bits)
+    (h : decodeBits L dc { infoOnly := true, ignoreExpect := ie } x = .ok (out, r)) :
+    ∃ e ∈ L, ∃ last, out.sections.getLast? = some last ∧ last.index = e.layout.index ∧
+      last.params.map (·.1) = e.layout.infoOnly.params.map (·.name) ∧
+      (e.layout.params.any (·.ty == .templateData) = false → e.layout.endOfMessage = true) ∧
+      (e.layout.params.any (·.ty == .templateData) = true →
+        ∃ pre a, x = pre ++ a ++ r ∧ a.length + e.layout.headerBits = last.nbits ∧
+          ∀ a' t', a'.length = a.length →
+            decodeBits L dc { infoOnly := true, ignoreExpect := ie } (pre ++ a' ++ t') = .ok (out, t')) := by
+  let dc0 : DataCoder α := { dec := fun _ => R.fail .other }
+  have hdc0 : ∀ reg, Local (dc0.dec reg) := fun _ => Local.fail _
+  have heq := (C17_info_never_runs_data_reader L dc dc0 ie).1
+  rw [heq] at h ⊢
+  unfold decodeBits at h ⊢
+  exact decLoop_opaque L hL dc0 hdc0 ie _ _ _ _ _ _ _ h
+
+
+/-- facts about the bundled family used below (finite table) -/
+theorem C17_bundled_layout_table :
+    ∀ e ∈ Gen.layouts, e.layout.index = e.index ∧
+      (e.index = 4 → e.layout.optional = false ∧ e.layout.params.any (·.ty == .templateData) = true) ∧
+      (e.layout.params.any (·.ty == .templateData) = true → e.layout.index = 4 ∧ e.layout.headerBits = 32) ∧
+      (e.layout.endOfMessage = true → e.layout.index = 5) := by
+  decide
+
+/-- in the bundled family the metadata-only loop started at a section index ≤ 4 ends in a section with index ≤ 4
+    (section 4 is mandatory and holds the template data) -/
+theorem C17_bundled_info_ends_at_data {α : Type} (dc : DataCoder α) (ie : Bool) :
+    ∀ (fuel idx : Nat) (reg : Registry) (out : DecOut α) (x : Bits) (out' : DecOut α) (r : Bits), idx ≤ 4 →
+      decLoop Gen.layouts dc { infoOnly := true, ignoreExpect := ie } fuel idx reg out x = .ok (out', r) →
+      ∃ last, out'.sections.getLast? = some last ∧ last.index ≤ 4 := by
+  intro fuel
+  induction fuel with
+  | zero => intro idx reg out x out' r _ h; simp only [decLoop, R.fail] at h; cases h
+  | succ fuel ih =>
+    intro idx reg out x out' r hidx h
+    simp only [decLoop] at h
+    obtain ⟨s0, r1, hl1, hb⟩ := bind_ok h
+    clear h
+    obtain ⟨hcfg, hr1⟩ := lift_ok hl1
+    subst hr1
+    obtain ⟨present, r2, hl2, h⟩ := bind_ok hb
+    clear hb
+    obtain ⟨hpres, hr2⟩ := lift_ok hl2
+    subst hr2
+    obtain ⟨e, he, hel, hei⟩ := getCfg_mem hcfg
+    subst hel
+    obtain ⟨t1, t2, _, _⟩ := C17_bundled_layout_table e he
+    have h4 : idx = 4 → present = true ∧
+        (({ infoOnly := true, ignoreExpect := ie } : DecOpts).transform e.layout).endOfMessage = true := by
+      intro hi
+      obtain ⟨ho, hd⟩ := t2 (by omega)
+      rw [isPresent_transform] at hpres
+      simp only [isPresent, ho, Bool.not_false, if_true] at hpres
+      cases hpres
+      refine ⟨rfl, ?_⟩
+      rw [transform_end]
+      simp only [if_true, SectionLayout.infoOnly, hd]
+    cases present with
+    | false =>
+      simp only [Bool.not_false, if_true] at h
+      have : idx ≠ 4 := fun hi => by have := (h4 hi).1; cases this
+      exact ih _ _ _ _ _ _ (by omega) h
+    | true =>
+      simp only [Bool.not_true, Bool.false_eq_true, if_false] at h
+      obtain ⟨⟨sec, reg1, d⟩, r3, hsec, hb⟩ := bind_ok h
+      clear h
+      have h := hb
+      clear hb
+      simp only at h
+      split at h
+      · simp only [R.pure] at h
+        cases h
+        have hsi : sec.index = e.layout.index := by
+          simp only [decSection] at hsec
+          obtain ⟨st, r4, _, hfin⟩ := bind_ok hsec
+          have : sec.index = (({ infoOnly := true, ignoreExpect := ie } : DecOpts).transform e.layout).index := by
+            unfold finishSection at hfin
+            split at hfin
+            · obtain ⟨dl, r5, _, h2⟩ := bind_ok hfin
+              split at h2
+              · obtain ⟨bits, _, hres⟩ := map_ok h2
+                cases hres; rfl
+              · split at h2
+                · simp only [R.fail] at h2; cases h2
+                · simp only [R.pure] at h2; cases h2; rfl
+            · simp only [R.pure] at hfin; cases hfin; rfl
+          rw [this, transform_index]
+        exact ⟨sec, by simp, by omega⟩
+      · rename_i hend
+        have : idx ≠ 4 := fun hi => hend (h4 hi).2
+        exact ih _ _ _ _ _ _ (by omega) h
+
+/-- **bundled family: the data octets are opaque to the metadata-only decode.**  Every successful
+    metadata-only decode over the bundled layouts ends with the cut section 4; the input is
+    `pre ++ a ++ r` with `a` the declared extent of section 4 minus its 32 header bits, and any other
+    `a'` of that length followed by anything decodes to the same result. -/
+theorem C17_bundled_info_ignores_data_content {α : Type} (dc : DataCoder α) (ie : Bool)
+    (x : Bits) (out : DecOut α) (r : Bits)
+    (h : decodeBits Gen.layouts dc { infoOnly := true, ignoreExpect := ie } x = .ok (out, r)) :
+    ∃ last pre a, out.sections.getLast? = some last ∧ last.index = 4 ∧ x = pre ++ a ++ r ∧
+      a.length + 32 = last.nbits ∧
+      ∀ a' t', a'.length = a.length →
+        decodeBits Gen.layouts dc { infoOnly := true, ignoreExpect := ie } (pre ++ a' ++ t') = .ok (out, t') := by
+  obtain ⟨e, he, last, h1, h2, _, h4, h5⟩ :=
+    C17_info_ignores_data_content Gen.layouts C17_bundled_layouts_wf dc ie x out r h
+  obtain ⟨last', g1, g2⟩ := C17_bundled_info_ends_at_data dc ie _ _ _ _ _ _ _ (Nat.zero_le 4) h
+  rw [h1] at g1
+  cases g1
+  obtain ⟨_, _, t3, t4⟩ := C17_bundled_layout_table e he
+  cases hd : e.layout.params.any (·.ty == .templateData) with
+  | false =>
+    have := t4 (h4 hd)
+    omega
+  | true =>
+    obtain ⟨pre, a, h6, h7, h8⟩ := h5 hd
+    obtain ⟨t5, t6⟩ := t3 hd
+    exact ⟨last, pre, a, h1, by rw [h2, t5], h6, by rw [← h7, t6], h8⟩
+
+/-! non-vacuity of the metadata-only theorems: the bundled family, the raw data coder and the edition-3
+    message of C04 (54 octets, 5 data bits) -/
+
+def C17_msg : List UInt8 :=
+  [66, 85, 70, 82, 0, 0, 54, 3, 0, 0, 18, 0, 0, 98, 0, 0, 2, 0, 29, 0, 20, 1, 2, 3, 4, 5, 0, 0, 18, 0, 0, 1,
+   128, 31, 31, 31, 31, 31, 31, 31, 31, 31, 31, 0, 0, 0, 6, 0, 176, 0, 55, 55, 55, 55]
+
+example (n : Nat) : ∀ reg, Local ((rawCoder n).dec reg) := fun _ => local_readBits n
+
+/-- the full decode reads 5 sections and the data, the metadata-only decode 4 sections, 50 octets, no data -/
+example : (decode Gen.layouts (rawCoder 5) {} C17_msg).map (fun m => (m.sections.length, m.data, m.nbits)) =
+    .ok (5, some [true, false, true, true, false], 432) := by decide +kernel
+example : (decode Gen.layouts (rawCoder 5) { infoOnly := true } C17_msg).map
+    (fun m => (m.sections.length, m.data, m.nbits, m.serialized.length)) = .ok (4, none, 400, 50) := by decide +kernel
+
+/-- ... and its sections are `infoSections` of the full decode's, its bytes the first 50 of the full decode's -/
+example : (decode Gen.layouts (rawCoder 5) { infoOnly := true } C17_msg).map (·.sections) =
+    (decode Gen.layouts (rawCoder 5) {} C17_msg).map (fun m => infoSections m.sections) := by decide +kernel
+example : (decode Gen.layouts (rawCoder 5) { infoOnly := true } C17_msg).map (·.serialized) =
+    (decode Gen.layouts (rawCoder 5) {} C17_msg).map (fun m => m.serialized.take 50) := by decide +kernel
+
+/-- the cut data section: 32 header bits (section length, reserved bits), 16 opaque bits -/
+example : (Gen.layouts.filter fun e => e.layout.params.any (·.ty == .templateData)).map
+    (fun e => (e.index, e.edition, e.layout.headerBits)) = [(4, 0, 32)] := by decide +kernel
+example : ((decode Gen.layouts (rawCoder 5) { infoOnly := true } C17_msg).map
+    (fun m => m.sections.getLast?.map (fun s => (s.index, s.nbits, s.params.map (·.1))))) =
+    .ok (some (4, 48, ["section_length", "reserved_bits"])) := by decide +kernel
+
+/-- overwriting the two data octets (176, 0) and damaging the stop signature changes nothing -/
+example : (decode Gen.layouts (rawCoder 5) { infoOnly := true } (C17_msg.take 48 ++ [255, 17, 1, 2, 3])).map (·.sections) =
+    (decode Gen.layouts (rawCoder 5) { infoOnly := true } C17_msg).map (·.sections) := by decide +kernel
 
 /-- every edition's layout family offers the parameter names the lookup theorems are instantiated at
     (and `originating_subcentre` exists from edition 3 on only) -/
